@@ -5,6 +5,7 @@ C05.peel   frames are peeled in a loop; one delivery per iteration dominated by 
 C05.arith  header / payload / remainder slice arithmetic is exact (linear-expression equality)
 C05.send   header = big-endian length truncated to H bytes, written right before the payload, only when enabled
 C05.guard  oversize payloads are refused on a path dominating both writes
+C05.state  attributes the layer mutates in place (the accumulation buffer) are bound per instance by the constructor
 """
 import ast
 import struct
@@ -462,12 +463,21 @@ def analyse_send(ctx, Hr):
         ctx.violate("C05.guard", W(), fn, "no size guard `len(%s) >= 256**H -> raise` dominates the header and payload writes" % P)
 
 
+def rule_state(ctx):
+    from ..state import per_instance_state
+    cls = ctx.repo.cls(FILE, CLS)
+    n = per_instance_state(ctx, "C05.state", cls)
+    ctx.units["C05.state_attrs"] = n
+
+
 def run(ctx):
     ctx.rule("C05.indep", "chunk parameter flows only into the accumulation buffer; decisions read the buffer", floor=3)
     ctx.rule("C05.peel", "peel loop shape: single dominated delivery, loop continues, incomplete frame leaves", floor=5)
     ctx.rule("C05.arith", "size decode, completeness test, payload and remainder slices are exact", floor=4)
     ctx.rule("C05.send", "header format/width/order/conditions", floor=6)
     ctx.rule("C05.guard", "oversize refused before any write", floor=1)
+    ctx.rule("C05.state", "the accumulation buffer (every attribute mutated in place) is bound per instance by the constructor", floor=1)
     ctx.assume("bytearray slicing / struct big-endian semantics of CPython")
-    H = analyse_receive(ctx)
-    analyse_send(ctx, H)
+    H = ctx.guarded("C05.receive", analyse_receive, ctx)
+    ctx.guarded("C05.send", analyse_send, ctx, H)
+    ctx.guarded("C05.state", rule_state, ctx)
